@@ -1,0 +1,23 @@
+//go:build verif
+
+// Package c07 re-exports the C07 verification hooks of internal/rsm so that the
+// verification harness (a different module) can reach them. Add-only; compiled
+// only with -tags verif.
+package c07
+
+import (
+	"github.com/lni/dragonboat/v4/internal/rsm"
+)
+
+// Membership is the white-box wrapper of rsm.membership.
+type Membership = rsm.VerifC07Membership
+
+// NewMembership creates an empty membership.
+func NewMembership(shardID uint64, replicaID uint64, ordered bool) *Membership {
+	return rsm.VerifC07NewMembership(shardID, replicaID, ordered)
+}
+
+// AddressEqual is rsm.addressEqual.
+func AddressEqual(a string, b string) bool {
+	return rsm.VerifC07AddressEqual(a, b)
+}
